@@ -105,6 +105,60 @@ pub fn run(rep: &mut Rep) {
             super::add_counters(rep, &w);
         }
     }
+    // many subscriptions: N streams, messages for PRNG-chosen subsets (1-3 identifiers per PUBLISH), a third of the streams dropped midway
+    let counts: Vec<usize> = if rep.quick() { vec![17, 40, 130] } else { vec![15, 16, 17, 31, 33, 64, 65, 127, 129, 257, 600] };
+    rep.note(&format!("many subscriptions: {:?} subscribe() calls with live streams, 300 messages each carrying 1-3 of their identifiers, a third of the streams dropped midway", counts));
+    for (ci, &n) in counts.iter().enumerate() {
+        let id = format!("many:{n}");
+        bidx += 1;
+        if !rep.take(bidx, &id) {
+            continue;
+        }
+        let mut rng = crate::sim::Rng::new(rep.seed.wrapping_mul(191).wrapping_add(ci as u64));
+        let mut w = World::boot(WorldCfg { seed: rep.seed, seed_ids: Some((1, [1u32, 120, 16300][ci % 3])), ..Default::default() });
+        w.sim.log_enabled = false;
+        let mut subs = Vec::new();
+        for _ in 0..n {
+            let i = w.start(0, Kind::Sub);
+            w.settle();
+            subs.push(i);
+        }
+        w.settle_check();
+        for &i in &subs {
+            w.deliver_ack(i, 1, 0, 0);
+            w.settle();
+            w.take_stream(i);
+        }
+        w.settle_check();
+        for k in 0..300usize {
+            if k == 150 {
+                for (j, &i) in subs.iter().enumerate() {
+                    if j % 3 == 0 {
+                        w.drop_stream(i);
+                    }
+                }
+            }
+            let cnt = 1 + rng.below(3);
+            let ids: Vec<u32> = (0..cnt).map(|_| w.m[subs[rng.below(n)]].sub_id.unwrap_or(1)).collect();
+            w.in_publish((k % 3) as u8, 1 + (k % 50) as u16, false, &ids, false);
+            if k % 3 == 2 {
+                w.in_pubrel(1 + (k % 50) as u16);
+            }
+            w.settle_check();
+            if w.blind {
+                break;
+            }
+        }
+        finish(&mut w);
+        rep.add("evaluations", 1);
+        rep.add("many_subscription_cases", 1);
+        rep.max("max_subscriptions", n as i64);
+        rep.distinct(&("many", n));
+        if super::harvest(rep, &mut w, &id) == 0 {
+            rep.sample(|| format!("{id}: {n} streams, 300 messages routed, {} items compared", w.counters.stream_items_checked));
+        }
+        super::add_counters(rep, &w);
+    }
     let mut wa = a.clone();
     wa.max_ops = 12;
     wa.max_conc = 4;
